@@ -18,7 +18,7 @@ Subset (everything else raises `Unsupported` for the function that contains it -
   lvalue     ::= p '->' scalar-field | p '->' array-field '[' expr ']' | p '->' array-field (= array parameter)
                | '*' q | local
   expr       ::= integer-literal | local | scalar parameter | p '->' scalar-field | p '->' array-field '[' expr ']' | '*' q
-               | expr (+ - % == != < <= > >= && ||) expr | ('!' | '-' | '+') expr | expr '?' expr ':' expr | '(' expr ')'
+               | expr (+ - % & == != < <= > >= && ||) expr | ('!' | '-' | '+') expr | expr '?' expr ':' expr | '(' expr ')'
                | q | '!' q | q '==' NULL | q '!=' NULL          (NULL tests of a pointer parameter)
                | f(args)                                        (f translated before and writing nothing)
   where p is the state pointer parameter and q a pointer parameter to one element / one int16_t.
@@ -55,7 +55,7 @@ I16_MIN, I16_MAX = -2 ** 15, 2 ** 15 - 1
 LEAN_KEYWORDS = {"at", "end", "from", "fun", "if", "then", "else", "let", "have", "show", "do", "in", "match", "with", "by", "open",
                  "def", "theorem", "namespace", "section", "where", "structure", "instance", "class", "import", "true", "false",
                  "some", "none", "default", "Type", "Prop", "Sort", "for", "return", "mut", "unless", "deriving", "using", "calc",
-                 "wrap16", "aget", "aset", "α"}
+                 "wrap16", "aget", "aset", "band32", "NotTranslated", "translated", "α"}
 
 
 class Unsupported(Exception):
@@ -462,7 +462,9 @@ class FuncTranslator:
         if v.kind == "bool":
             if v.lit is not None:
                 return V("int", str(int(v.lit)), True, int(v.lit), int(v.lit), int(v.lit))
-            return V("int", "if %s then 1 else 0" % v.text, False, 0, 1)
+            r = V("int", "if %s then 1 else 0" % v.text, False, 0, 1)
+            r.frombool = v      # a truth value promoted to int: used as a truth value again, it is the original one
+            return r
         self.fail(node, "a number is needed here")
 
     def as_bool(self, v, node, env):
@@ -471,6 +473,8 @@ class FuncTranslator:
         if v.kind == "int":
             if v.lit is not None:
                 return V("bool", "true" if v.lit != 0 else "false", True, lit=(v.lit != 0))
+            if getattr(v, "frombool", None) is not None:
+                return v.frombool
             return V("bool", "%s != 0" % v.p(), False)
         if v.kind == "ptr":
             st = env.ptr[v.ptr]
@@ -603,6 +607,12 @@ class FuncTranslator:
             return V("bool", "%s != 0" % v.p(), False)
         self.fail(node, "conversion to %s" % to)
 
+    def fits(self, v, to, node):
+        """the value is used at C type `to` and clang's AST already carries the conversion: check that it does"""
+        if to == "i16" and not (I16_MIN <= v.lo and v.hi <= I16_MAX):
+            self.fail(node, "value of type int used as int16_t without a conversion in the AST")
+        return v
+
     def deref(self, q, node, env):
         st = env.ptr[q]
         pi = self.pinfo[q]
@@ -643,7 +653,7 @@ class FuncTranslator:
             if op in ("==", "!="):
                 return V("bool", "%s %s %s" % (a.p(), op, b.p()), False)
             return V("bool", "decide (%s %s %s)" % (a.p(), {"<": "<", "<=": "≤", ">": ">", ">=": "≥"}[op], b.p()), False)
-        if op in ("+", "-", "%"):
+        if op in ("+", "-", "%", "&"):
             a, b = self.as_int(a, n), self.as_int(b, n)
             if self.ft.ctype(n["type"]) != "i32":
                 self.fail(n, "arithmetic at type %s" % n["type"]["qualType"])
@@ -655,6 +665,16 @@ class FuncTranslator:
             return self.int_result(n, "%s + %s" % (a.p(), b.p()), a.lo + b.lo, a.hi + b.hi)
         if op == "-":
             return self.int_result(n, "%s - %s" % (a.p(), b.p()), a.lo - b.hi, a.hi - b.lo)
+        if op == "&":
+            # both operands are ints (32 bits, two's complement: implementation-defined before C23, universal): `band32`
+            if a.lo >= 0 and b.lo >= 0:
+                lo, hi = 0, min(a.hi, b.hi)
+            elif a.lo >= 0 or b.lo >= 0:
+                lo, hi = 0, (a.hi if a.lo >= 0 else b.hi)
+            else:
+                k = max(abs(a.lo), a.hi + 1, abs(b.lo), b.hi + 1)
+                lo, hi = -k, k - 1
+            return self.int_result(n, "band32 %s %s" % (a.p(), b.p()), lo, hi)
         # C99 6.5.5: truncated division; the result has the sign of the dividend
         if b.lo <= 0 <= b.hi:
             self.side.append("%s != 0 (%s, operand of %%)" % (self.ft.text(n["inner"][1]), self.ft.where(n)))
@@ -783,7 +803,7 @@ class FuncTranslator:
                     if self.ret == "void":
                         self.fail(s, "return with a value in a void function")
                     v = self.expr(s["inner"][0], env)
-                    v = self.as_bool(v, s, env) if self.ret == "bool" else self.convert(self.as_int(v, s), self.ret, s)
+                    v = self.as_bool(v, s, env) if self.ret == "bool" else self.fits(self.as_int(v, s), self.ret, s)
                     out.append(pad + self.ret_tuple(env, v.text))
                 else:
                     if self.ret != "void":
@@ -827,7 +847,7 @@ class FuncTranslator:
                     if d.get("inner"):
                         init = [c for c in d["inner"] if "Comment" not in c.get("kind", "")]
                         v = self.expr(init[0], env)
-                        v = self.as_bool(v, s, env) if ct == "bool" else self.convert(self.as_int(v, s), ct, s)
+                        v = self.as_bool(v, s, env) if ct == "bool" else self.fits(self.as_int(v, s), ct, s)
                         out.append(pad + "let %s := %s" % (self.lname(nm), v.text))
                     else:
                         # indeterminate value in C; reading it before an assignment is undefined.  The model starts it at 0 / false.
@@ -920,8 +940,8 @@ class FuncTranslator:
             v = self.as_int(v, node)
             if not converted:
                 v = self.convert(v, ct, node)
-            elif ct == "i16" and not (I16_MIN <= v.lo and v.hi <= I16_MAX):
-                self.fail(node, "store into int16_t without a conversion in the AST")
+            else:
+                v = self.fits(v, ct, node)
         k = lhs.get("kind")
         st = self.lname(self.state)
         if k == "MemberExpr":
@@ -999,7 +1019,23 @@ class FuncTranslator:
         join = (state?, cells, locals): no branch returns; the if is an expression yielding the rebound variables."""
         pad = "  " * ind
         out = []
-        header = self.ft.text(s, upto=then) + (" {" if then.get("kind") == "CompoundStmt" else "")
+        # a NULL test inside `a || b` / `a && b`: `if (a || b) S else T` is `if (a) S else if (b) S else T`, `if (a && b) S else T`
+        # is `if (a) { if (b) S else T } else T` (operands are free of side effects in the subset), so that the test of the
+        # pointer becomes the condition of an if of its own and dominates what follows
+        c0 = strip(cond)
+        if c0.get("kind") == "BinaryOperator" and c0.get("opcode") in ("||", "&&") and self.has_ptr_test(c0, env):
+            a, b = c0["inner"]
+            def mk(c, th, el):
+                return {"kind": "IfStmt", "inner": [c, th] + ([el] if el is not None else []), "range": s["range"],
+                        "_header": "(%s, split) if (%s) {" % (c0["opcode"], self.ft.text(c))}
+            if c0["opcode"] == "||":
+                new = mk(a, then, mk(b, then, els))
+            else:
+                inner = mk(b, then, els)
+                new = mk(a, inner, els)
+            out.append(pad + "-- " + (s.get("_header") or self.ft.text(s, upto=then) + (" {" if then.get("kind") == "CompoundStmt" else "")))
+            return out + self.emit_if(new, new["inner"][0], new["inner"][1], new["inner"][2] if len(new["inner"]) > 2 else None, env, k, ind, join)
+        header = s.get("_header") or self.ft.text(s, upto=then) + (" {" if then.get("kind") == "CompoundStmt" else "")
         out.append(pad + "-- " + header)
         t = self.cond_test(cond)
         if join is not None:
@@ -1049,6 +1085,13 @@ class FuncTranslator:
         out += self.stmts(el, env.copy(), kk, ind2 + 1)
         return out
 
+    def has_ptr_test(self, c, env):
+        c = strip(c)
+        if c.get("kind") == "BinaryOperator" and c.get("opcode") in ("||", "&&"):
+            return any(self.has_ptr_test(x, env) for x in c["inner"])
+        t = self.cond_test(c)
+        return t is not None and env.ptr.get(t[0]) == "opt"
+
     def expr_check(self, cond, env):
         self.expr(cond, env)
 
@@ -1091,6 +1134,14 @@ class FuncTranslator:
 PRELUDE = """/-- conversion int -> int16_t as gcc and clang define it (two's complement wrap); the identity on [-32768, 32767] -/
 def wrap16 (x : Int) : Int := (x + 32768) % 65536 - 32768
 
+/-- `a & b` on two ints (32 bits, two's complement) -/
+def band32 (a b : Int) : Int := (BitVec.ofInt 32 a &&& BitVec.ofInt 32 b).toInt
+
+/-- what stands in the place of a function that could not be translated: every statement about that function stops
+type-checking, statements about the other functions are unaffected -/
+structure NotTranslated where
+  reason : String
+
 /-- `a[i]` as a value.  Outside `0 ≤ i < a.length` the C behaviour is undefined; the model yields `default`. -/
 def aget {α : Type} [Inhabited α] (a : List α) (i : Int) : α := if 0 ≤ i then a.getD i.toNat default else default
 
@@ -1115,27 +1166,58 @@ def translate_file(path, state_typedef="scpi_fifo_t", lean_struct="CFifo", names
     L.append("deriving Repr, DecidableEq\n")
     L.append("variable {α : Type}\n")
     failed, done = {}, []
-    for fn in ft.function_decls():
-        name = fn["name"]
-        if wanted is not None and name not in wanted:
+    def placeholder(name, why):
+        failed[name] = why
+        L.append("/-- `%s` is NOT TRANSLATED: %s -/" % (name, why.replace("\n", " ").replace("-/", "- /")))
+        L.append("def %s : NotTranslated := ⟨%s⟩\n" % (name + "_c" if name in LEAN_KEYWORDS else name, json.dumps(why[:300], ensure_ascii=False)))
+    # callees first (C needs only a prototype before a call, Lean needs the definition); recursion is outside the subset
+    decls = {fn["name"]: fn for fn in ft.function_decls() if wanted is None or fn["name"] in wanted}
+    def callees(fn):
+        out = []
+        for x in walk(fn):
+            if x.get("kind") == "DeclRefExpr" and x.get("referencedDecl", {}).get("kind") == "FunctionDecl":
+                c = x["referencedDecl"]["name"]
+                if c in decls and c not in out:
+                    out.append(c)
+        return out
+    order, state = [], {}
+    def visit(name):
+        if state.get(name) == "done":
+            return
+        if state.get(name) == "open":
+            raise Unsupported("recursion through %s" % name)
+        state[name] = "open"
+        for c in callees(decls[name]):
+            visit(c)
+        state[name] = "done"
+        order.append(name)
+    for name in decls:
+        try:
+            visit(name)
+        except Unsupported as e:
+            state[name] = "done"
+            if name not in order:
+                order.append(name)
+            failed[name] = str(e)
+    for name in order:
+        fn = decls[name]
+        if name in failed:
+            placeholder(name, failed[name])
             continue
         try:
             text, sig = ft.translate_function(fn)
         except Unsupported as e:
-            failed[name] = str(e)
-            L.append("-- %s: NOT TRANSLATED: %s\n" % (name, str(e).replace("\n", " ")))
+            placeholder(name, str(e))
             continue
         except (KeyError, IndexError, TypeError, AttributeError, ValueError) as e:
-            failed[name] = "translator error %s: %s" % (type(e).__name__, e)
-            L.append("-- %s: NOT TRANSLATED: %s\n" % (name, failed[name]))
+            placeholder(name, "translator error %s: %s" % (type(e).__name__, e))
             continue
         ft.funcs[name] = sig
         done.append(name)
         L.append(text + "\n")
     for w in (wanted or []):
         if w not in done and w not in failed:
-            failed[w] = "no definition of %s in %s" % (w, os.path.basename(path))
-            L.append("-- %s: NOT TRANSLATED: %s\n" % (w, failed[w]))
+            placeholder(w, "no definition of %s in %s" % (w, os.path.basename(path)))
     L.append("/-- the C functions translated in this run -/")
     L.append("def translated : List String := [%s]\n" % ", ".join('"%s"' % d for d in done))
     L.append("end %s" % namespace)
